@@ -32,7 +32,7 @@ import core as _core  # noqa: E402
 HERE = os.path.dirname(os.path.abspath(__file__))
 sys.path.insert(0, HERE)
 import model as M  # noqa: E402
-# codegen imported below when present
+import codegen as G  # noqa: E402
 
 DRIVER = os.path.join(HERE, "driver.janet")
 DRIVER_CODE = os.path.join(HERE, "driver_code.janet")
@@ -108,6 +108,13 @@ def src_desc(d, nodename=lambda i: "n%d" % i):
         return '(int/s64 "%d")' % d[1]
     if k == "u64":
         return '(int/u64 "%d")' % d[1]
+    if k == "proto":
+        return "(table/setproto %s %s)" % (src_desc(d[1], nodename), src_desc(d[2], nodename))
+    if k == "warr":
+        return "(array/concat (array/weak 4) [%s])" % " ".join(src_desc(x, nodename) for x in d[1:])
+    if k in ("wtabk", "wtabv", "wtabkv"):
+        ctor = dict(wtabk="table/weak-keys", wtabv="table/weak-values", wtabkv="table/weak")[k]
+        return "(merge-into (%s 4) (table %s))" % (ctor, " ".join(src_desc(x, nodename) for x in d[1:]))
     ctor = dict(arr="array", tup="tuple", btup="tuple/brackets", tab="table", struct="struct")[k]
     return "(%s %s)" % (ctor, " ".join(src_desc(x, nodename) for x in d[1:]))
 
@@ -284,6 +291,13 @@ def leaf_descriptors(chk):
                 ds.append((c, a, ("int", 1)))
                 ds.append((c, ("kwlit", "k"), a) if a is not None else (c,))
     ds.append(("buf", 0, 0))
+    # weak arrays and tables (every weakness), empty / filled / with a prototype
+    k, s_, seven = ("kwlit", "k"), ("lit", "s"), ("int", 7)
+    ds += [("warr",), ("warr", seven, s_), ("warr", ("arr", seven))]
+    for w in ("wtabk", "wtabv", "wtabkv"):
+        ds += [(w,), (w, k, seven), (w, s_, ("arr", seven), k, s_), ("proto", (w, k, seven), ("tab", k, s_)),
+               ("proto", (w, k, seven), (w, s_, seven))]
+    ds.append(("proto", ("tab", k, seven), ("wtabk", s_, seven)))
     return ds
 
 
@@ -312,6 +326,11 @@ def part_leaves(chk):
         if f[1] != "=":
             viols.append(Viol(leafsig2(d, "toplevel"), "%s -> %s" % (f[0], f[1]),
                               replay_value([], src_desc(d), "(unmarshal (marshal x))", f[0], f[1])))
+        if f[5] != "truetrue":
+            viols.append(Viol("real:-0:sign-lost" if d == NEG_ZERO else "leaf:%s:typebyte-or-append" % leafclass(d), "%s: type byte kept / append into a used buffer: %s" % (f[0], f[5]),
+                              replay_value(["(def c (unmarshal (marshal %s)))" % src_desc(d),
+                                            "(print \"type bytes: \" (in (marshal %s) 0) \" \" (in (marshal c) 0))" % src_desc(d)],
+                                           src_desc(d), "(unmarshal (buffer/slice (marshal x @{} @\"pre\") 3))", f[0], f[5])))
         if f[3] != "=":
             viols.append(Viol(leafsig2(d, "nested"), "%s -> %s" % (f[2], f[3]),
                               replay_value([], '@["sib" %s]' % src_desc(d), "(unmarshal (marshal x))", f[2], f[3])))
@@ -410,7 +429,7 @@ def graph_shard(arg):
         f = text.split("\t")
         if f[0] != exp:
             raise HarnessError("graph %s: canon of the original is %s, model predicts %s" % (M.jnodes(g), f[0], exp))
-        out["evals"] += 4 + nn
+        out["evals"] += (2 if lean else 5) + nn
         hows = [("plain", "(unmarshal (marshal x))"),
                 ("imagedict", "(unmarshal (marshal x make-image-dict) load-image-dict)"),
                 ("twice", "(unmarshal (marshal (unmarshal (marshal x))))")]
@@ -443,9 +462,18 @@ def graph_shard(arg):
                 out["viols"].append(Viol("graph:registry:%s:node-%s" % (kinds_sig(g), g[k][0]),
                                          "node %d registered as 'r, looked up as a fresh value: %s -> %s, expected %s" % (k, exp, got, expk),
                                          replay_value(build, "n0", "(unmarshal (marshal x @{n%d 'r}) @{'r %s})" % (k, REPL_SRC[g[k][0][0]]), expk, got)))
-        if f[5 + nn] != "=":
-            out["viols"].append(Viol("graph:original-mutated:%s" % kinds_sig(g), "marshal changed the original: %s -> %s" % (exp, f[5 + nn]),
-                                     replay_value(build + ["(marshal n0)"], "n0", "x", exp, f[5 + nn])))
+        held = f[5 + nn]
+        out["outcomes"].add("g:held:" + ("=" if held == "=" else "diff"))
+        if held != "=":
+            out["viols"].append(Viol("graph:held-by-closure-and-fiber:%s" % kinds_sig(g),
+                                     "[x closure fiber] marshalled together: %s, then via closure, via fiber -> %s" % (exp, held),
+                                     replay_value(build + ["(def holder (let [cap n0] (fn holder [] cap)))",
+                                                           "(def fb (fiber/new (let [cap n0] (fn body [] (def loc cap) (yield 1) loc))))",
+                                                           "(resume fb)", "(def pc (unmarshal (marshal [n0 holder fb])))"],
+                                                  "[n0 n0 n0]", "[(in pc 0) ((in pc 1)) (resume (in pc 2))]", "", held)))
+        if f[6 + nn] != "=":
+            out["viols"].append(Viol("graph:original-mutated:%s" % kinds_sig(g), "marshal changed the original: %s -> %s" % (exp, f[6 + nn]),
+                                     replay_value(build + ["(marshal n0)"], "n0", "x", exp, f[6 + nn])))
     return out
 
 
@@ -499,6 +527,408 @@ def part_graphs(chk):
     return viols
 
 
+# ------------------------------------------------------------------ code parts (driver_code.janet)
+
+def replay_code(item, note):
+    """stand-alone script: canon2 + the driver's definitions + one call of the handler"""
+    src = open(DRIVER_CODE).read()
+    src = src[:src.index("# REPLAY-CUT")]
+    src = src.replace("(use prelude)\n", "").replace('(import ./canon2 :prefix "")\n', "")
+    return (prelude_canon_source() + src +
+            "\n(def item (parse %s))\n(print (handle item))\n# %s\n" % (G.jstr(item), note.replace("\n", " ")))
+
+
+_SAMPLES = []
+
+
+def run_code(items, chunk=None, timeout=300):
+    chunk = chunk or max(4, len(items) // (NPROC * 3) + 1)
+    res = run_batch("fast", DRIVER_CODE, items, chunk=chunk, timeout=timeout)
+    if items:
+        # first, middle and last case of every batch, with what the interpreter answered
+        for i in sorted({0, len(items) // 2, len(items) - 1}):
+            _SAMPLES.append({"item": items[i][:300], "status": res[i][0], "output": res[i][1][:300]})
+    return res
+
+
+def part_closures(chk):
+    viols = []
+    L = 3 if chk.quick else 4
+    args = (1, 10)
+    cases = []
+    for variant, groupings, dicts in (("detached", ("together", "separate"), (False, True)),
+                                      ("early", ("together",), (False,)),
+                                      ("fiber", ("together",), (False, True)),
+                                      ("fiber-implicit", ("together", "separate"), (False,))):
+        alphabet = [(w, a) for w in (0, 2, 3) for a in ((1, 10) if w != 2 else (0,))] + [(1, 1)]
+        if variant == "fiber":
+            alphabet += [(4, 5)]
+        for grouping in groupings:
+            for d in dicts:
+                for n in range(1, L + 1):
+                    for ops in itertools.product(alphabet, repeat=n):
+                        cases.append((variant, grouping, d, ops))
+    items = ["[:clo :%s :%s %s [%s]]" % (v, g, "true" if d else "false", " ".join("[%d %d]" % o for o in ops))
+             for v, g, d, ops in cases]
+    res = run_code(items)
+    for (v, g, d, ops), it, (st, text) in zip(cases, items, res):
+        chk.add(evaluations=1, transitions=len(ops))
+        elo, elc = G.clo_expected(v, g, ops)
+        sigbase = "closure:%s:%s%s" % (v, g, ":lookup" if d else "")
+        if st != "OK":
+            viols.append(Viol(sigbase + ":" + st.lower(), "%s -> %s %s" % (it, st, text[:300]), replay_code(it, "expected copy log: " + elc)))
+            continue
+        lo, lc, shape = text.split("\t")
+        if lo != elo:
+            raise HarnessError("closure model disagrees on the ORIGINAL: %s -> %s, model %s" % (it, lo, elo))
+        chk.outcome("clo:" + lc)
+        if lc != elc:
+            viols.append(Viol(sigbase + ":behaviour", "%s: copy log %s, expected %s (original %s)" % (it, lc, elc, lo),
+                              replay_code(it, "output: original log <tab> copy log; expected copy log: " + elc)))
+        if set(shape.split(",")) != {"same"}:
+            viols.append(Viol(sigbase + ":shape", "%s: disassembly of the copies differs: %s" % (it, shape), replay_code(it, "third field must be same,same,same,same")))
+    chk.part("closures", cases=len(cases), max_ops=L)
+    return viols
+
+
+def part_fibers(chk):
+    viols = []
+    cases = []
+    for depth, n, m, nested, captured, envmode, fail in itertools.product((1, 2, 3), (1, 2), (0, 1), (False, True),
+                                                                           (False, True), (0, 1, 2), (False, True)):
+        if depth == 1 and (m or fail):
+            continue
+        params = (depth, n, m, nested, captured, envmode, fail)
+        total = G.fiber_total_yields(params)
+        length = total + 3
+        for j in range(0, total + 3):
+            k = length - j
+            if chk.quick:
+                afters = [tuple(1 + (i % 2) for i in range(k))]
+            else:
+                afters = list(itertools.product((1, 2), repeat=min(k, 4)))
+                afters = [a + (1,) * (k - len(a)) for a in afters]
+            before = tuple(1 + ((i + 1) % 2) for i in range(j))
+            for after in afters:
+                lookups = (True,) if envmode else (False, True)
+                for lk in lookups:
+                    cases.append((params, before, after, lk))
+    def jb(x):
+        return "true" if x is True else "false" if x is False else str(x)
+    items = ["[:fib [%s] [%s] [%s] %s]" % (" ".join(jb(x) for x in p), " ".join(map(str, b)), " ".join(map(str, a)), jb(lk))
+             for p, b, a, lk in cases]
+    res = run_code(items)
+    for (p, b, a, lk), it, (st, text) in zip(cases, items, res):
+        chk.add(evaluations=1, transitions=len(a) * 4)
+        mo = G.FiberModel(p)
+        epre = mo.drive(b)
+        est = mo.status
+        elo = mo.drive(a)
+        m2 = G.FiberModel(p)
+        m2.drive(b)
+        el2 = m2.drive([v + 50 for v in a])
+        sigbase = "fiber:depth%d:env%d%s:at-%s" % (p[0], p[5], ":lookup" if lk else "", est[1:])
+        if st != "OK":
+            viols.append(Viol(sigbase + ":" + st.lower(), "%s -> %s %s" % (it, st, text[:300]), replay_code(it, "expected log " + elo)))
+            continue
+        pre, st0, st1, lo, l1, l3, l2 = text.split("\t")
+        if pre != epre or lo != elo or ":" + st0 != est:
+            raise HarnessError("fiber model disagrees on the ORIGINAL: %s -> %s | %s | %s, model %s | %s | %s" % (it, pre, st0, lo, epre, est, elo))
+        chk.outcome("fib:" + st0 + ":" + l1[:40])
+        note = "fields: log-before, status, status-of-copy, original, copy, copy-from-pair, second copy driven with +50"
+        if ":" + st1 != est:
+            viols.append(Viol(sigbase + ":status", "%s: copy status %s, original %s" % (it, st1, st0), replay_code(it, note)))
+        if l1 != elo or l3 != elo:
+            viols.append(Viol(sigbase + ":behaviour", "%s: copy log %s / %s, expected %s" % (it, l1, l3, elo), replay_code(it, note)))
+        if l2 != el2:
+            viols.append(Viol(sigbase + ":independence", "%s: second copy log %s, expected %s" % (it, l2, el2), replay_code(it, note)))
+    chk.part("fibers", cases=len(cases))
+    return viols
+
+
+# a closure in a constant-false branch leaves a malformed sub-definition that unmarshal rejects
+DEADBRANCH_MSG = "funcdef has invalid bytecode"
+DEADBRANCH_SIG = "function:dead-branch-closure:unmarshal-rejects-funcdef"
+DEADBRANCH_REPLAY = ("(defn f [a] (var i a) (if nil (fn [] i)) i)\n(pp (f 1))\n(pp ((disasm f) :defs))\n"
+                     "(pp (unmarshal (marshal f)))  # error: funcdef has invalid bytecode\n")
+
+
+def part_functions(chk):
+    viols = []
+    corpus = G.function_corpus(chk.quick)
+    items = ["[:fn %s [%s]]" % (G.jstr(src), " ".join(G.jstr(c) for c in calls)) for src, calls in corpus]
+    res = run_code(items, chunk=4, timeout=300)
+    nplain = 0
+    for (src, calls), it, (st, text) in zip(corpus, items, res):
+        chk.add(evaluations=1 + len(calls) * 6)
+        short = src.strip()[:60]
+        sigsrc = re.sub(r"[^A-Za-z0-9]+", "-", src.strip()[:40])
+        if st != "OK":
+            viols.append(Viol(DEADBRANCH_SIG if DEADBRANCH_MSG in text else "function:%s:%s" % (st.lower(), sigsrc),
+                              "%s -> %s %s" % (short, st, text[:300]), DEADBRANCH_REPLAY if DEADBRANCH_MSG in text else replay_code(it, "")))
+            continue
+        if text in ("nocompile", "nondeterministic"):
+            raise HarnessError("function corpus entry is %s: %s" % (text, short))
+        f = text.split("\t")
+        ref = f[0]
+        if ref.count("V") == 0:
+            raise HarnessError("function corpus entry never returns: %s -> %s" % (short, ref))
+        chk.outcome("fn:" + ref[:60])
+        for v in f[1:]:
+            name, _, rest = v.partition(":")
+            if rest == "unmarshalable":
+                if name != "plain":
+                    viols.append(Viol("function:%s:error:%s" % (name, sigsrc), "%s: %s" % (short, v), replay_code(it, "")))
+                continue
+            if name == "plain":
+                nplain += 1
+            shape, _, log = rest.partition(":")
+            if shape != "same":
+                viols.append(Viol("function:%s:shape:%s" % (name, shape.split(".")[-1].rstrip("0123456789-")),
+                                  "%s: disassembly of the %s copy differs at %s" % (short, name, shape), replay_code(it, "field " + v)))
+            if log != "=":
+                viols.append(Viol("function:%s:behaviour:%s" % (name, sigsrc), "%s: %s copy log %s, original %s" % (short, name, log, ref),
+                                  replay_code(it, "first field = original log; every other field must end in :=")))
+    chk.part("functions", corpus=len(corpus), marshalable_without_lookup=nplain,
+             calls=sum(len(c) for _, c in corpus))
+    return viols
+
+
+def part_core(chk):
+    viols = []
+    st, text = run_code(["[:core-list]"])[0]
+    if st != "OK":
+        raise HarnessError("core-list: %s %s" % (st, text))
+    names = text.split(" ")
+    items = ["[:core %s]" % G.jstr(n) for n in names]
+    res = run_code(items, chunk=16)
+    nasm = 0
+    for n, it, (st, text) in zip(names, items, res):
+        chk.add(evaluations=4)
+        if st != "OK":
+            viols.append(Viol("core:%s:%s" % (st.lower(), n), "%s -> %s %s" % (n, st, text[:300]), replay_code(it, "")))
+            continue
+        f = dict(x.split(":", 1) for x in text.split("\t"))
+        chk.outcome("core:" + text)
+        if f["cfdict"] != "same":
+            viols.append(Viol("core:marshal-shape:" + f["cfdict"].split(".")[-1].rstrip("0123456789-"),
+                              "%s: copy through marshal differs at %s" % (n, f["cfdict"]), replay_code(it, "")))
+        if f["dict"] != "identical":
+            viols.append(Viol("core:imagedict-not-identical", "%s: marshal with make-image-dict did not give back the same function" % n, replay_code(it, "")))
+        if f["asm"] == "has-environments":
+            continue
+        nasm += 1
+        if f["asm"] != "same" or f.get("asm2") != "same":
+            viols.append(Viol("core:asm-shape:" + (f["asm"] + f.get("asm2", "")).split(".")[-1].rstrip("0123456789-"),
+                              "%s: (asm (disasm f)) differs at %s / second pass %s" % (n, f["asm"], f.get("asm2")), replay_code(it, "")))
+    chk.part("core-functions", functions=len(names), upvalue_free_assembled=nasm)
+    # behaviour of copies of core functions on argument sets
+    calls = [(n, c) for n, c in sorted(G.CORE_CALLS.items()) if n in set(names) and c != ["[]"]]
+    items = ["[:corecall %s [%s]]" % (G.jstr(n), " ".join(G.jstr(x) for x in c)) for n, c in calls]
+    res = run_code(items, chunk=8)
+    for (n, c), it, (st, text) in zip(calls, items, res):
+        chk.add(evaluations=len(c) * 3)
+        if st != "OK":
+            viols.append(Viol("corecall:%s:%s" % (st.lower(), n), "%s -> %s %s" % (n, st, text[:300]), replay_code(it, "")))
+            continue
+        f = text.split("\t")
+        chk.outcome("corecall:" + f[0][:60])
+        for v in f[1:]:
+            name, _, log = v.partition(":")
+            if log != "=":
+                viols.append(Viol("corecall:%s:%s" % (name, n), "%s: %s copy log %s, original %s" % (n, name, log, f[0]), replay_code(it, "")))
+    chk.part("core-functions", called=len(calls))
+    return viols
+
+
+def part_c02(chk):
+    """the C02 expression enumerator as a corpus of upvalue-free functions"""
+    viols = []
+    corpus, note = G.c02_corpus(chk.quick)
+    if note:
+        chk.cap("c02 corpus: " + note)
+    if not corpus:
+        return viols
+    call = "[1 10 @[]]"
+    items = ["[:fn %s [%s] true]" % (G.jstr(src), G.jstr(call)) for _, src in corpus]
+    saved = _core.MEM_LIMIT
+    _core.MEM_LIMIT = 1500 * 1024 * 1024
+    try:
+        res = run_code(items, chunk=max(50, len(items) // (NPROC * 4)), timeout=60)
+    finally:
+        _core.MEM_LIMIT = saved
+    fams = {}
+    nocompile = nondet = 0
+    for (fam, src), it, (st, text) in zip(corpus, items, res):
+        chk.add(evaluations=7)
+        expr = src.split("(def r\n", 1)[1].rsplit(")\n[r x y tr])", 1)[0].replace("\n", " ")
+        if st == "OK" and text == "nocompile":
+            nocompile += 1
+            continue
+        if st == "OK" and text == "nondeterministic":
+            nondet += 1
+            continue
+        fams[fam] = fams.get(fam, 0) + 1
+        if st != "OK":
+            viols.append(Viol(DEADBRANCH_SIG if DEADBRANCH_MSG in text else "c02:%s:%s" % (fam, st.lower()),
+                              "%s -> %s %s" % (expr[:100], st, text[:300]), DEADBRANCH_REPLAY if DEADBRANCH_MSG in text else replay_code(it, "")))
+            continue
+        f = text.split("\t")
+        ref = f[0]
+        chk.outcome("c02:" + ref[:50])
+        for v in f[1:]:
+            name, _, rest = v.partition(":")
+            if rest == "unmarshalable":
+                if name != "plain":
+                    viols.append(Viol("c02:%s:%s:error" % (fam, name), "%s: %s" % (expr[:100], v), replay_code(it, "")))
+                continue
+            shape, _, log = rest.partition(":")
+            if shape != "same":
+                viols.append(Viol("c02:%s:%s:shape:%s" % (fam, name, shape.split(".")[-1].rstrip("0123456789-")),
+                                  "%s: disassembly of the %s copy differs at %s" % (expr[:100], name, shape), replay_code(it, "field " + v)))
+            if log != "=":
+                viols.append(Viol("c02:%s:%s:behaviour" % (fam, name), "%s: %s copy log %s, original %s" % (expr[:100], name, log, ref),
+                                  replay_code(it, "first field = original log; every other field must end in :=")))
+    chk.part("c02-corpus", functions=sum(fams.values()), not_compilable_skipped=nocompile,
+             nondeterministic_skipped=nondet, by_family=str(sorted(fams.items())))
+    return viols
+
+
+ASMBIT = [
+    ("(fn [a] (var x a) (def g (fn [] (++ x))) (def g2 (unmarshal (marshal g))) [(g) (g2) (g2) (g)])", "1"),
+    ("(fn [a] (var x a) (var y 5) (def g (fn [] (++ x))) (def h (fn [] (+= y x))) "
+     "(def [g2 h2] (unmarshal (marshal [g h]))) [(g) (h) (g2) (h2) (g2) (h2)])", "1"),
+    ("(fn [a] (var x a) (def g (fn [] (++ x))) (def f (fiber/new (fn [] (yield (marshal g))))) (def g2 (unmarshal (resume f))) [(g) (g2) (g2)])", "1"),
+]
+
+
+def part_asm_live(chk):
+    """functions produced by asm whose body marshals a closure over their own live frame"""
+    viols = []
+    items = ["[:asmbit %s %s]" % (G.jstr(s), a) for s, a in ASMBIT]
+    res = run_code(items, chunk=1)
+    for (s, a), it, (st, text) in zip(ASMBIT, items, res):
+        chk.add(evaluations=2)
+        chk.outcome("asmbit:" + st)
+        if st != "OK":
+            viols.append(Viol("asm:no-closure-bitset:marshal-closure-over-live-frame:" + st.lower(),
+                              "(asm (disasm f)) %s where f returns normally: f = %s [%s]" % (st, s, text[-300:].replace("\n", " ")),
+                              "(def f %s)\n(pp (f %s))\n(def f2 (asm (disasm f)))\n(pp (f2 %s))  # the assembled copy crashes (NULL closure_bitset in marsh.c marshal_one_env)\n" % (s, a, a)))
+            continue
+        lo, la = text.split("\t")
+        if lo != la:
+            viols.append(Viol("asm:live-closure:behaviour", "%s: original %s, assembled copy %s" % (s, lo, la), replay_code(it, "")))
+    chk.part("asm-live-closure", cases=len(ASMBIT))
+    return viols
+
+
+def part_images(chk):
+    viols = []
+    mods = G.image_modules(chk.quick)
+    items = ["[:image %s [%s]]" % (G.jstr(src), " ".join("[%s %s]" % (G.jstr(n), ":value" if a == ":value" else G.jstr(a)) for n, a in calls))
+             for _, src, calls in mods]
+    res = run_code(items, chunk=8)
+    for (sub, src, calls), it, (st, text) in zip(mods, items, res):
+        chk.add(evaluations=len(calls) * 2)
+        sig = "image:features-" + "-".join(map(str, sub[:3]))
+        if st != "OK":
+            viols.append(Viol(sig + ":" + st.lower(), "module %s -> %s %s" % (src[:80], st, text[:300]), replay_code(it, "")))
+            continue
+        l1, l2, keys, root = text.split("\t")
+        chk.outcome("image:" + l1[:80])
+        if "missing" in l1 or "E" in l1.replace("VE", ""):
+            pass
+        if l1 != l2 or keys != "=" or root != "root":
+            viols.append(Viol(sig + ":behaviour", "module %s: original env log %s, loaded image log %s, keys %s, proto %s" % (src[:80], l1, l2, keys, root),
+                              replay_code(it, "fields: log of the original environment, log of (load-image (make-image env)), binding names, prototype")))
+    chk.part("images", modules=len(mods))
+    return viols
+
+
+def part_channels(chk):
+    viols = []
+    maxops = 5 if chk.quick else 7
+    cases = []
+    for cap in (0, 1, 2, 3):
+        seqs = set()
+        for n in range(0, maxops + 1):
+            for ops in itertools.product("gt", repeat=n):
+                seqs.add(ops)
+        for ops in sorted(seqs, key=lambda o: (len(o), o)):
+            if cap == 0 and ops:
+                continue
+            for closed in (False, True):
+                cases.append((cap, ops, closed))
+    items = ["[:chan %d [%s] %s]" % (cap, " ".join(":" + o for o in ops), "true" if c else "false") for cap, ops, c in cases]
+    res = run_code(items)
+    for (cap, ops, closed), it, (st, text) in zip(cases, items, res):
+        chk.add(evaluations=1)
+        sig = "channel:cap%d:%s" % (cap, "closed" if closed else "open")
+        eo, ei = G.chan_expected(cap, ops, closed)
+        exp = eo + " " + ei
+        if st != "OK":
+            viols.append(Viol(sig + ":" + st.lower(), "%s -> %s %s" % (it, st, text[:300]), replay_code(it, "expected " + exp)))
+            continue
+        o, c = text.split("\t")
+        if o != exp:
+            raise HarnessError("channel model disagrees on the ORIGINAL: %s -> %s, model %s" % (it, o, exp))
+        chk.outcome("chan:" + c)
+        if c != exp:
+            viols.append(Viol(sig + ":state", "%s: copy observed %s, expected %s" % (it, c, exp), replay_code(it, "fields: original, copy")))
+    chk.part("channels", cases=len(cases), max_ops=maxops)
+    return viols
+
+
+def part_pegs(chk):
+    viols = []
+    texts = G.PEG_TEXTS
+    items = ["[:peg %s [%s] %s]" % (G.jstr(src), " ".join('"%s"' % t for t in texts), "true" if stable else "false")
+             for src, stable in G.PEGS]
+    res = run_code(items, chunk=4)
+    for (src, stable), it, (st, text) in zip(G.PEGS, items, res):
+        chk.add(evaluations=len(texts) * 3)
+        sig = "peg:" + re.sub(r"[^A-Za-z0-9]+", "-", src[:40])
+        if st != "OK":
+            if re.search(r"\((int|int-be|uint-be) ", src) and "invalid peg bytecode" in text:
+                # one defect, one signature: the verifier in peg_unmarshal rejects every int / *-be reader
+                viols.append(Viol("peg:readint-signed-or-bigendian:unmarshal-rejects",
+                                  "%s -> %s %s" % (src[:80], st, text[:300]),
+                                  "(def p (peg/compile '(int 1)))\n(pp (peg/match p \"\\x01\"))\n"
+                                  "(pp (peg/match (unmarshal (marshal p)) \"\\x01\"))  # error: invalid peg bytecode\n"))
+            else:
+                viols.append(Viol(sig + ":" + st.lower(), "%s -> %s %s" % (src[:80], st, text[:300]), replay_code(it, "")))
+            continue
+        ref, plain, dct, ty, stab, pair = text.split("\t")
+        chk.outcome("peg:" + ref[:80])
+        if plain not in ("=", "unmarshalable") or dct != "=" or pair != "=":
+            viols.append(Viol(sig + ":behaviour", "%s: original %s; copies: plain %s, lookup %s, shared %s" % (src[:80], ref, plain, dct, pair),
+                              replay_code(it, "fields: original log, plain copy, copy with image dictionaries, type+sharing, byte-stable, copy from a pair")))
+        if ty != "core/pegtrue":
+            viols.append(Viol(sig + ":sharing", "%s: type/sharing %s" % (src[:80], ty), replay_code(it, "")))
+        if stab not in ("-", "true"):
+            viols.append(Viol(sig + ":remarshal", "%s: marshalling the copy gives other bytes than marshalling the original" % src[:80], replay_code(it, "")))
+    chk.part("pegs", grammars=len(G.PEGS), texts=len(texts))
+    return viols
+
+
+def part_rngs(chk):
+    viols = []
+    cases = [(seed, adv) for seed in (0, 1, 5, 127, 128, 8192, 2147483647, -1, -8193) for adv in (0, 1, 7)]
+    items = ["[:rng %d %d]" % c for c in cases]
+    res = run_code(items)
+    for (seed, adv), it, (st, text) in zip(cases, items, res):
+        chk.add(evaluations=1)
+        if st != "OK":
+            viols.append(Viol("rng:" + st.lower(), "%s -> %s %s" % (it, st, text[:200]), replay_code(it, "")))
+            continue
+        a, b, b2, a2, ty = text.split("\t")
+        chk.outcome("rng:" + a)
+        if a != b or a2 != b2 or ty != "core/rngtrue" or a == a2:
+            viols.append(Viol("rng:sequence", "%s: original draws %s then %s, copy %s then %s (%s)" % (it, a, a2, b, b2, ty), replay_code(it, "")))
+    chk.part("rngs", cases=len(cases))
+    return viols
+
+
 # ------------------------------------------------------------------ main
 
 PARTS = []
@@ -514,7 +944,11 @@ def main():
              "A case is distinct if its recipe differs.")
     chk.assume("the prelude's canonical printer and janet's reader/constructors (array/push, put, struct, tuple) are trusted; "
                "peg/match, resume and function calls on the ORIGINAL are trusted as the behavioural reference (checked by C12/C05/C02)")
+    t_build = chk.elapsed()
     vjanet("fast")
+    # a cold build (seconds on an idle machine, minutes on a loaded one) is not charged to the
+    # exploration budget
+    chk.budget += chk.elapsed() - t_build
     only = chk.args.only
     viols = []
     for name, fn in PARTS:
@@ -527,11 +961,18 @@ def main():
         v = fn(chk)
         viols += v
         chk.part("time", **{name: round(chk.elapsed() - t, 1)})
+    # a few cases written out: first/middle/last of the first batches and of the last one
+    for smp in _SAMPLES[:3] + _SAMPLES[-3:]:
+        chk.sample(smp, limit=12)
+    if not chk.cov["caps_hit"] and not only:
+        chk.cov["bound_completed"] = "all parts of the %s tier (see parts)" % chk.tier
     report(chk, viols)
     chk.finish()
 
 
-PARTS += [("ints", part_ints), ("leaves", part_leaves), ("graphs", part_graphs)]
+PARTS += [("ints", part_ints), ("leaves", part_leaves), ("closures", part_closures), ("fibers", part_fibers),
+          ("functions", part_functions), ("c02", part_c02), ("core", part_core), ("asmlive", part_asm_live), ("images", part_images),
+          ("channels", part_channels), ("pegs", part_pegs), ("rngs", part_rngs), ("graphs", part_graphs)]
 
 if __name__ == "__main__":
     harness_guard(main)
